@@ -1,7 +1,7 @@
 (* C03 — the observation codec round-trips, hence the end-to-end statement over the wire format:
    the property's decision procedure accepts what the extracted model prints, for every input. *)
 From Coq Require Import List ZArith Bool Lia.
-From Verif Require Import Lib.Wire C03.Model C03.Spec C03.Codec C03.Entry C03.Proofs_Check.
+From Verif Require Import Lib.Wire C03.Model C03.Spec C03.Codec C03.Entry C03.Proofs_Check C03.Proofs_NP.
 Import ListNotations.
 Open Scope Z_scope.
 
@@ -62,11 +62,25 @@ Proof.
   destruct (enc_obs o) as [|a [|b [|c l]]]; cbn [length] in H; try lia. reflexivity.
 Qed.
 
-(* for EVERY input (well-formed or not): the decision procedure accepts the model's output *)
-Theorem prop_case_run_case inp : prop_case inp (run_case inp) = 0.
+(* for EVERY input (well-formed or not): the decision procedure accepts the model's output, except
+   possibly for clause 3 (the known finding about dimensions missing from min) ... *)
+Theorem prop_case_run_case inp : prop_case inp (run_case inp) = 0 \/ prop_case inp (run_case inp) = 3.
 Proof.
   unfold prop_case, run_case. destruct (decode inp) as [cfg ops].
   rewrite is_crash_enc.
-  rewrite <- (run_length cfg ops init_state) at 1. rewrite parse_obs_enc.
-  apply prop_code_run.
+  replace (length ops) with (length (run cfg init_state ops)) by apply run_length.
+  rewrite parse_obs_enc.
+  apply prop_code_full_run.
+Qed.
+
+(* ... and entirely when every quota object gives a min for every key of its max *)
+Theorem prop_case_run_case_mc inp :
+  mc_hist (fst (decode inp)) init_state (snd (decode inp)) = true ->
+  prop_case inp (run_case inp) = 0.
+Proof.
+  unfold prop_case, run_case. destruct (decode inp) as [cfg ops]. cbn [fst snd]. intro H.
+  rewrite is_crash_enc.
+  replace (length ops) with (length (run cfg init_state ops)) by apply run_length.
+  rewrite parse_obs_enc.
+  apply prop_code_full_run_mc. exact H.
 Qed.
